@@ -240,6 +240,7 @@ func runC05(c *harness.Ctx) {
 	var got int64
 	var rdErr error
 	var rdDone bool
+	afterErr := 0
 	c.S.Go(map[bool]string{true: "c", false: "s"}[victimIsClient]+"/reader", func() {
 		buf := make([]byte, []int{32768, 1, 100, 1427, 4096}[t.Draw("rdbuf", 5)])
 		for {
@@ -259,8 +260,16 @@ func runC05(c *harness.Ctx) {
 				}
 			}
 			if err != nil {
-				rdErr, rdDone = err, true
-				return
+				if rdErr == nil {
+					rdErr, rdDone = err, true
+				}
+				// an application that keeps calling Read after the error must not
+				// be handed the frames behind the damaged one either (these
+				// further calls may fail again or block; both are fine)
+				afterErr++
+				if afterErr >= 8 {
+					return
+				}
 			}
 		}
 	})
@@ -282,6 +291,9 @@ func runC05(c *harness.Ctx) {
 		}
 	})
 	stop := c.S.Run(func() bool { return rdDone || (!damaged && got == off) }, 5*time.Minute)
+	if rdDone {
+		c.S.Run(func() bool { return afterErr >= 8 }, 30*time.Second)
+	}
 	c.Reached = true
 	c.Nontrivial = damaged
 	switch {
